@@ -2,6 +2,7 @@ import Exetera.Lemmas.JoinFlatSession
 import Exetera.Lemmas.JoinFlatSwap
 import Exetera.Lemmas.JoinFlatIndex
 import Exetera.Lemmas.JoinFlatDec
+import Exetera.Lemmas.C19Session
 /-!
 # C19 — Session-level merge and join helpers agree with relational join semantics
 
@@ -78,13 +79,10 @@ example : innerResultSize [1, 1, 2, 4, 4, 5] [1, 2, 2, 4, 6] = .ok 6 := by decid
     the call that is not the streamed one (ndarray or Field arguments; no sinks or Field sinks; any chunk size) succeeds
     and returns / writes exactly `cols`.
 
-    `_partial`: the full statements `ordered_merge_left_correct` and `forms_agree` also cover (a) the streamed form
-    (`streamable c = true`: all arguments Fields and a map field given) for every chunk size `cs ≥ 1`, (b) ndarray sinks,
-    (c) indexed-string payloads. Missing for (a) are the two refinement lemmas
-    `streamedOld L R inv cs = generateLeft false L R (zeros) inv` and
-    `mapValidStreamOld xs m inv cs 0 = mapValid xs m none inv 0` (monotone in-range maps), for (b) the rows lemma of
-    `map_valid` with a zero-initialised result; the correspondence run checks both on the exhaustive scope for chunk sizes
-    1..6 and 1<<20. (c) is false as found (open finding NC19d, `Witness.C19.nc19d_indexed_payload_rejected`). -/
+    `_partial`: superseded by `ordered_merge_left_correct` / `forms_agree` below, which also cover (a) the streamed form
+    (`streamable c = true`: all arguments Fields and a map field given) for every chunk size `cs ≥ 1` and (b) ndarray
+    sinks; kept because obligations are never deleted. Still excluded everywhere: (c) indexed-string payloads — false as
+    found (open finding NC19d, `Witness.C19.nc19d_indexed_payload_rejected`). -/
 theorem ordered_merge_left_correct_partial (lu : Bool) {L R : List Int} (xss : List (List Int))
     (hL : Sorted L) (hR : R.Pairwise (· < ·)) (hlu : lu = true → L.Pairwise (· < ·))
     (hne : xss ≠ []) (hlen : ∀ xs ∈ xss, xs.length = R.length) :
@@ -134,6 +132,117 @@ example : orderedMergeLeft 2 ⟨true, true, .fields, false⟩ false true [1, 2, 
 example : orderedMergeLeft 2 ⟨true, true, .fields, true⟩ false true [1, 2, 2, 3, 5, 5, 6, 9] [2, 3, 4, 5, 9]
     [.numeric [11, 14, 17, 20, 23]] =
     .ok ⟨none, [[0, 11, 11, 14, 20, 20, 0, 23]], some (encR INVALID_INDEX (leftJoin [1, 2, 2, 3, 5, 5, 6, 9] [2, 3, 4, 5, 9]))⟩ := by
+  decide
+
+/-! ### every form: array, Field, Field sinks, ndarray sinks, streamed with every chunk size -/
+
+/-- **ordered_merge_left is the relational left join of the payloads — every form of the call.** For sorted keys, a
+    duplicate-free right column (`right_unique=True`; `left_unique` only if the left column is duplicate-free too) and
+    numeric payload columns of the right table there is ONE list of columns `cols` — column `k` is payload `k` mapped
+    through the relational left join: row `r` is the payload at the unique right row whose key equals left key `r`, the
+    empty value `0` if there is none (`Spec.mapSpec` over the right column of `Spec.leftJoin`) — such that, whatever the
+    chunk size `cs` and whether keys / sources are ndarrays or Fields,
+    * without sinks the call returns `cols`;
+    * with Field sinks and no map field (not streamed) it writes `cols`;
+    * with zero-initialised ndarray sinks (`np.zeros(len(left_on))`, one per payload) it writes `cols`;
+    * the STREAMED form (all arguments Fields, Field sinks, a map field), for every chunk size `cs ≥ 1` of the legacy
+      drivers `generate_ordered_map_to_left_right_unique_streamed_old` / `ordered_map_valid_stream_old`, writes `cols` and
+      leaves the relational join map in the map field. The streamed form needs `len(right) ≤ INVALID_INDEX = 2^62` (the
+      marker must not be a row number of the source; `ordered_map_valid_stream_old` does not test the entry that makes it
+      fetch the next source chunk against the marker).
+    `.ok` means: no out-of-bounds access, no `'i' has got ahead` / `StopIteration`, every loop ends within its fuel.
+    Not covered: indexed-string payloads (open finding NC19d). -/
+theorem ordered_merge_left_correct (lu : Bool) {L R : List Int} (xss : List (List Int))
+    (hL : Sorted L) (hR : R.Pairwise (· < ·)) (hlu : lu = true → L.Pairwise (· < ·))
+    (hne : xss ≠ []) (hlen : ∀ xs ∈ xss, xs.length = R.length) :
+    ∃ cols, MappedCols (encR INVALID_INDEX (leftJoin L R)) INVALID_INDEX xss cols ∧
+      ∀ (cs : Nat) (c : Cfg),
+        (c.sinks = .none → orderedMergeLeft cs c lu true L R (xss.map .numeric) = .ok ⟨some cols, [], none⟩) ∧
+        (c.sinks = .fields → streamable c = false →
+          orderedMergeLeft cs c lu true L R (xss.map .numeric) = .ok ⟨none, cols, none⟩) ∧
+        (c.sinks = zeroArrays L.length xss.length →
+          orderedMergeLeft cs c lu true L R (xss.map .numeric) = .ok ⟨none, cols, none⟩) ∧
+        (streamable c = true → 1 ≤ cs → (R.length : Int) ≤ INVALID_INDEX →
+          orderedMergeLeft cs c lu true L R (xss.map .numeric) =
+            .ok ⟨none, cols, some (encR INVALID_INDEX (leftJoin L R))⟩) :=
+  orderedMergeLeft_all lu xss hL hR hlu hne hlen
+
+/-- `ordered_merge_right`, every form: `ordered_merge_left` with the sides (and the flags) swapped — one row per right
+    row, payloads from the left table, whose key column must be the duplicate-free one. -/
+theorem ordered_merge_right_correct (ru : Bool) {L R : List Int} (xss : List (List Int))
+    (hL : L.Pairwise (· < ·)) (hR : Sorted R) (hru : ru = true → R.Pairwise (· < ·))
+    (hne : xss ≠ []) (hlen : ∀ xs ∈ xss, xs.length = L.length) :
+    ∃ cols, MappedCols (encR INVALID_INDEX (leftJoin R L)) INVALID_INDEX xss cols ∧
+      ∀ (cs : Nat) (c : Cfg),
+        (c.sinks = .none → orderedMergeRight cs c true ru L R (xss.map .numeric) = .ok ⟨some cols, [], none⟩) ∧
+        (c.sinks = .fields → streamable c = false →
+          orderedMergeRight cs c true ru L R (xss.map .numeric) = .ok ⟨none, cols, none⟩) ∧
+        (c.sinks = zeroArrays R.length xss.length →
+          orderedMergeRight cs c true ru L R (xss.map .numeric) = .ok ⟨none, cols, none⟩) ∧
+        (streamable c = true → 1 ≤ cs → (L.length : Int) ≤ INVALID_INDEX →
+          orderedMergeRight cs c true ru L R (xss.map .numeric) =
+            .ok ⟨none, cols, some (encR INVALID_INDEX (leftJoin R L))⟩) :=
+  orderedMergeLeft_all ru xss hR hL hru hne hlen
+
+/-- **the array, Field and streamed forms of the same call return the same values.** Two `ordered_merge_left` calls on the
+    same keys and payloads that differ in the form of their arguments (ndarray / Field keys and sources; no sinks, Field
+    sinks or zero-initialised ndarray sinks; with or without the map field, i.e. streamed or not) and in the chunk size of
+    the streamed helpers (any `cs ≥ 1`) both succeed and return / write the same columns (`FormOK`: the forms listed in
+    `ordered_merge_left_correct`). -/
+theorem forms_agree (cs₁ cs₂ : Nat) (c₁ c₂ : Cfg) (lu : Bool) {L R : List Int} (xss : List (List Int))
+    (h₁ : FormOK cs₁ c₁ L.length xss.length R.length) (h₂ : FormOK cs₂ c₂ L.length xss.length R.length)
+    (hL : Sorted L) (hR : R.Pairwise (· < ·)) (hlu : lu = true → L.Pairwise (· < ·))
+    (hne : xss ≠ []) (hlen : ∀ xs ∈ xss, xs.length = R.length) :
+    ∃ o₁ o₂, orderedMergeLeft cs₁ c₁ lu true L R (xss.map .numeric) = .ok o₁ ∧
+      orderedMergeLeft cs₂ c₂ lu true L R (xss.map .numeric) = .ok o₂ ∧
+      o₁.returned.getD o₁.sinks = o₂.returned.getD o₂.sinks := by
+  obtain ⟨cols, _, h⟩ := orderedMergeLeft_any lu xss hL hR hlu hne hlen
+  obtain ⟨o₁, a1, b1, _⟩ := h cs₁ c₁ h₁
+  obtain ⟨o₂, a2, b2, _⟩ := h cs₂ c₂ h₂
+  exact ⟨o₁, o₂, a1, a2, b1.trans b2.symm⟩
+
+/-- the same for `ordered_merge_right` -/
+theorem forms_agree_right (cs₁ cs₂ : Nat) (c₁ c₂ : Cfg) (ru : Bool) {L R : List Int} (xss : List (List Int))
+    (h₁ : FormOK cs₁ c₁ R.length xss.length L.length) (h₂ : FormOK cs₂ c₂ R.length xss.length L.length)
+    (hL : L.Pairwise (· < ·)) (hR : Sorted R) (hru : ru = true → R.Pairwise (· < ·))
+    (hne : xss ≠ []) (hlen : ∀ xs ∈ xss, xs.length = L.length) :
+    ∃ o₁ o₂, orderedMergeRight cs₁ c₁ true ru L R (xss.map .numeric) = .ok o₁ ∧
+      orderedMergeRight cs₂ c₂ true ru L R (xss.map .numeric) = .ok o₂ ∧
+      o₁.returned.getD o₁.sinks = o₂.returned.getD o₂.sinks :=
+  forms_agree cs₁ cs₂ c₁ c₂ ru xss h₁ h₂ hR hL hru hne hlen
+
+/-- the two refinements the streamed form rests on, as statements about the legacy drivers themselves: for every chunk
+    size ≥ 1 the streamed left map is the flat kernel's map … -/
+theorem streamed_old_left_map_eq_flat {L R : List Int} (inv : Int) {cs : Nat} (hcs : 1 ≤ cs) (hL : Sorted L)
+    (hR : R.Pairwise (· < ·)) :
+    ∃ u u', streamedOld L R inv cs = .ok (u, encR inv (leftJoin L R)) ∧
+      generateLeft false L R (List.replicate L.length 0) inv = .ok (u', encR inv (leftJoin L R)) := by
+  obtain ⟨u, h⟩ := streamedOld_eq inv hcs hL hR
+  obtain ⟨u', h'⟩ := generateLeft_eq false (List.replicate L.length 0) inv hL hR (by simp) (by simp)
+  exact ⟨u, u', h, h'⟩
+
+/-- … and the streamed mapper is `map_valid` (= `Spec.mapSpec`) on every in-range map whose valid entries do not
+    decrease, the marker not being a row number of the source. -/
+theorem streamed_old_map_valid_eq_flat (xs : List Int) (m : List Int) (inv : Int) {cs : Nat} (hcs : 1 ≤ cs)
+    (hr : InRange xs.length m inv) (hmono : ValidMonotone m inv) (hinv : inv < 0 ∨ (xs.length : Int) ≤ inv) :
+    mapValidStreamOld xs m inv cs 0 = MapValid.mapValid xs m none inv 0 ∧
+      ∃ out, mapValidStreamOld xs m inv cs 0 = .ok out ∧ mapSpec xs inv 0 m = some out :=
+  ⟨mapValidStreamOld_eq_mapValid xs m inv 0 hcs hr hmono hinv, mapValidStreamOld_eq xs m inv 0 hcs hr hmono hinv⟩
+
+-- non-vacuity of the new hypotheses: the streamed form with chunk size 2 and zero-initialised ndarray sinks are covered forms
+example : FormOK 2 ⟨true, true, .fields, true⟩ 8 1 5 ∧ streamable ⟨true, true, .fields, true⟩ = true := by
+  refine ⟨⟨Or.inr (Or.inl rfl), fun _ => ⟨by decide, by decide⟩⟩, rfl⟩
+example : FormOK (1 <<< 20) ⟨false, false, zeroArrays 8 1, false⟩ 8 1 5 :=
+  ⟨Or.inr (Or.inr rfl), fun h => by cases h⟩
+example : orderedMergeLeft (1 <<< 20) ⟨false, false, zeroArrays 8 1, false⟩ false true [1, 2, 2, 3, 5, 5, 6, 9] [2, 3, 4, 5, 9]
+    [.numeric [11, 14, 17, 20, 23]] = .ok ⟨none, [[0, 11, 11, 14, 20, 20, 0, 23]], none⟩ := by decide
+example : streamedOld [1, 2, 2, 3, 5, 5, 6, 9] [2, 3, 4, 5, 9] (-1) 1 =
+    .ok (true, encR (-1) (leftJoin [1, 2, 2, 3, 5, 5, 6, 9] [2, 3, 4, 5, 9])) := by decide
+example : encR (-1) (leftJoin [1, 2, 2, 3, 5, 5, 6, 9] [2, 3, 4, 5, 9]) = [-1, 0, 0, 1, 3, 3, -1, 4] := by decide
+example : InRange 5 (encR (-1) (leftJoin [1, 2, 2, 3, 5, 5, 6, 9] [2, 3, 4, 5, 9])) (-1) ∧
+    ValidMonotone (encR (-1) (leftJoin [1, 2, 2, 3, 5, 5, 6, 9] [2, 3, 4, 5, 9])) (-1) :=
+  ⟨inRange_encR _ _ _, validMonotone_encR_leftJoin _ (by simp [Sorted]) (by simp)⟩
+example : mapValidStreamOld [11, 14, 17, 20, 23] [-1, 0, 0, 1, 3, 3, -1, 4] (-1) 2 0 = .ok [0, 11, 11, 14, 20, 20, 0, 23] := by
   decide
 
 /-! ## `Session.ordered_merge_inner` -/
